@@ -703,7 +703,9 @@ func (fv *FV) applyModifies(st *State, ctx *SpecCtx, c *Contract, pkg *types.Pac
 		byFam[it.fam.Key] = append(byFam[it.fam.Key], it.cond)
 		// the caller's own frame: the callee's footprint must be inside it
 		if it.ref != "" {
+			fv.inCalleeFrame = true
 			fv.frameCheck(st, it.fam, []string{it.ref, "0"}[:len(it.fam.ArgSorts)], "call "+fname)
+			fv.inCalleeFrame = false
 		} else {
 			fv.frameCheckCallee(st, map[string]bool{it.fam.Key: true}, "call "+fname)
 		}
